@@ -323,6 +323,26 @@ func (e *Engine) intrinsic(s *State, f *Frame, call *ssa.Call, fn *ssa.Function,
 		}
 		set(r)
 		return true
+	case "internal/bytealg.IndexByte", "internal/bytealg.IndexByteString", "bytes.IndexByte", "strings.IndexByte":
+		// index of the first cell equal to c, -1 if none (assembly in the library)
+		var cells []*Term
+		if sl, ok := args[0].(SliceV); ok {
+			if _, conc := cint(sl.Len); !conc {
+				if _, ok := e.uniqueValue(s, sl.Len); !ok {
+					unsupp("IndexByte on a slice of symbolic length")
+				}
+			}
+			cells = e.bytesOfSlice(s, sl)
+		} else {
+			cells, _ = strCells(args[0])
+		}
+		c := args[1].(*Term)
+		r := BVInt(-1, 64)
+		for i := len(cells) - 1; i >= 0; i-- {
+			r = Ite(Eq(cells[i], c), I64(i), r)
+		}
+		set(r)
+		return true
 	case "strings.Clone", "internal/stringslite.Clone", "strconv.cloneString":
 		set(args[0]) // strings are immutable values here; a copy is the same value
 		return true
